@@ -276,6 +276,10 @@ def special_pool():
                               ("c", ["list", [["obj", "NodeB", [["a", i(1)], ["b", ["arr", "float32", [], 9, "C"]]]], s("z")]]),
                               ("x", ["dict", [["o", ["obj", "NodeC", [["a", ["set", [i(4), i(5)]]]]]]]]),
                               ("y", ["tuple", [["obj", "NodeA", [["a", ["none"]]]]]]))))
+    P.append(("digit-key-dicts", root(("d", ["dict", [["0", s("a")], ["1", i(2)]]]), ("e", ["dict", [["0", ["arr", "float32", [2], 4, "C"]]]]),
+                                      ("f", ["dict", [["2", ["none"]]]]), ("g", ["dict", [["007", i(1)], ["10", ["list", [i(1), s("q")]]]]]),
+                                      ("h", ["dict", [["0", i(1)], ["1", i(2)], ["2", i(3)]]]), ("k", ["dict", [["1", ["path", "p/q"]], ["0", f(0.5)]]]),
+                                      ("l", ["list", [["dict", [["0", ["dict", [["0", s("deep")]]]]]]]]))))
     P.append(("loggers", root(("lg", ["logger", "c01.pool", 30]), ("l", ["list", [["logger", "c01.pool2", 10], i(1)]]), ("rl", ["rootlogger"]))))
     for bg in BITGENS:
         P.append(("rng-" + bg, root(("r", ["rng", bg, 3]), ("x", i(1)))))
